@@ -123,10 +123,48 @@ CHECKS = {
                 'check only when line counts agree and no removals/preprocess.',
         'design_ref': 'DESIGN.md 4.2',
     },
+    'C11': {
+        'technique': TECH + 'gentest run against a simulated peer process '
+                     '(SimPopen command program) under a simulator-owned '
+                     'clock, file change times, host/user/home/cwd/tmpdir; '
+                     'clock steps and midnight between and inside iterations; '
+                     'the generated script is imported and run in-process; '
+                     'whole-directory audit',
+        'text': 'Seeded exploration. "Whatever text the outputs contain" is '
+                'only meaningful relative to clock and identity, which the '
+                'simulator owns: date-like tokens are placed inside, at the '
+                'edge of and outside the plausibility window around simulated '
+                'now, identity strings occur inside ordinary words, clocks '
+                'step while the command runs. Oracle: no crash, script '
+                'exists and compiles, passes straight afterwards, nothing '
+                'else in the directory changed.',
+        'note': 'Stubs: shell/child process, clock, ctimes, identity (see '
+                'components in evidence). Output streams are valid UTF-8; '
+                'pre-existing files matched by the user\'s own explicit name '
+                'or glob are kept out of the workload (user error).',
+        'design_ref': 'DESIGN.md 4.3',
+    },
+    'C12': {
+        'technique': TECH + 'history generate -> pass -> the simulated peer '
+                     'changes behaviour in exactly one way (or the clock '
+                     'jumps and nothing changes) -> re-run; M-excuse model '
+                     'over simulated identity/time decides which lines must '
+                     'be checked',
+        'text': 'Seeded exploration over commands and single behaviour '
+                'changes (one character / line on stdout, stderr or a text '
+                'file, one byte of a binary file, a file no longer written, '
+                'exit status). The named test must fail; with no change it '
+                'must still pass after clock jumps of days to years.',
+        'note': 'A change is demanded to be noticed only on lines without '
+                'simulated identity strings or in-window dates (abstentions '
+                'counted). Equal-tick ctimes are not injected (no '
+                'ctime-based implementation can meet the statement there).',
+        'design_ref': 'DESIGN.md 4.3',
+    },
 }
 
 NOT_BUILT = {p: 'claimed in DESIGN.md; machine under construction, no check registered yet'
-             for p in ('C01', 'C06', 'C08', 'C09', 'C11', 'C12', 'C17')}
+             for p in ('C01', 'C06', 'C08', 'C09', 'C17')}
 
 NOT_APPLICABLE = {
     'C02': 'pure function of (frame, constraint set, epsilon, type_checking): '
